@@ -4,7 +4,7 @@
    one timeline.
 
    Parametric (Section variables / hypotheses) in
-     NodeAt, tile_ok, tiles_sound, saved_implies_ok       C10 (see SeqProofsTile.v)
+     NodeAt, tile_ok, tiles_sound, saved_authenticated       C10 (see SeqProofsTile.v)
      vs, name                                              the configured verifiers and server name
      signed_small : a tree that opens under vs has fewer than 2^62 records (the domain on
                     which the tlog and tile models mirror int64 arithmetic). *)
@@ -41,9 +41,9 @@ Hypothesis tiles_sound : forall N R h ix rt hs ts ds,
   tile_read_hashes node_hash (N, R) h ix rt = (TOk hs, Some (ts, ds)) ->
   Forall2 (node_auth NodeAt R N) ix hs /\ Forall2 (tile_ok R N) ts ds.
 
-Hypothesis saved_implies_ok : forall N R h ix rt r sv,
+Hypothesis saved_authenticated : forall N R h ix rt r ts ds,
   1 <= h <= 30 -> 0 <= N < 2 ^ 62 ->
-  tile_read_hashes node_hash (N, R) h ix rt = (r, Some sv) -> exists hs, r = TOk hs.
+  tile_read_hashes node_hash (N, R) h ix rt = (r, Some (ts, ds)) -> Forall2 (tile_ok R N) ts ds.
 
 Variable vs : verifiers str.
 Variable name : str.
@@ -72,7 +72,8 @@ Definition head_ok (msg : str) (t : tree) : Prop :=
 (* a lookup response whose record is authenticated against a signed tree *)
 Definition auth_record (data : str) : Prop :=
   exists id text rest tmsg t,
-    parse_record data = Index.Ok (id, text, rest) /\ signed_tree tmsg t /\ id < Codec.tN t /\
+    parse_record data = Index.Ok (id, text, rest) /\ signed_tree tmsg t /\
+    (id < Codec.tN t /\ 0 < Codec.tN t) /\
     node_auth NodeAt (Codec.tH t) (Codec.tN t) (stored_hash_index 0 id) (leaf_hash text).
 
 Definition is_lookup_file (f : str) : Prop :=
@@ -613,7 +614,8 @@ Lemma check_record_st_spec id text s r s' :
   CInv (s_c s) ->
   check_record_st leaf_hash node_hash id text s = (r, s') ->
   tframe s s' /\ textend ev_quiet s s' /\
-  (r = None -> exists tmsg, signed_tree tmsg (c_latest (s_c s)) /\ id < Codec.tN (c_latest (s_c s)) /\
+  (r = None -> exists tmsg, signed_tree tmsg (c_latest (s_c s)) /\
+               (id < Codec.tN (c_latest (s_c s)) /\ 0 < Codec.tN (c_latest (s_c s))) /\
                node_auth NodeAt (Codec.tH (c_latest (s_c s))) (Codec.tN (c_latest (s_c s)))
                          (stored_hash_index 0 id) (leaf_hash text)) /\
   (forall e, r = Some e -> e <> ESecurity /\ e <> EFuelC).
@@ -633,6 +635,10 @@ Proof.
     split; [apply tframe_refl|]. split; [apply textend_refl|]. split; [discriminate|].
     intros e' [= <-]. exact He.
   - assert (Hr := signed_range _ _ Hs).
+    assert (Hpos : (exists hs, a = TOk hs) -> 0 < Codec.tN (c_latest (s_c s))).
+    { intros (hs & ->). destruct (Z.eq_dec (Codec.tN (c_latest (s_c s))) 0) as [E0|]; [|lia].
+      exfalso. eapply tile_read_hashes_st_empty in E as [_ Hno]; [|exact E0|apply stored_hash_index_0_nonneg].
+      eapply Hno. reflexivity. }
     eapply tile_read_hashes_st_spec in E as (F & T & Hauth); eauto; [|apply (ci_height _ HI)].
     assert (Tq : textend ev_quiet s s0).
     { eapply textend_impl; [|exact T]. rewrite (ci_name _ HI). intros e. eapply tile_ev_quiet; eauto. }
@@ -647,7 +653,7 @@ Proof.
     destruct Hfin as (-> & Hnone & Herrs).
     split; [exact F|]. split; [exact Tq|]. split; [|exact Herrs].
     intros Hr0. destruct (Hnone Hr0) as (h & l & -> & Heq). apply str_eqb_eq in Heq. subst h.
-    exists (c_latest_msg (s_c s)). split; [exact Hs|]. split; [exact Hle|].
+    exists (c_latest_msg (s_c s)). split; [exact Hs|]. split; [split; [exact Hle | apply Hpos; eauto]|].
     specialize (Hauth _ eq_refl). inversion Hauth; subst. assumption.
 Qed.
 
@@ -749,7 +755,9 @@ Lemma record_do_spec file rp s r s' :
   CInv (s_c s') /\ lframe s s' /\ textend ev_safe s s' /\
   (forall d, r = ROk d -> auth_record d) /\
   (r = RErr ESecurity -> has_sec s s' \/ In (file, RErr ESecurity) (c_records (s_c s))) /\
-  r <> RErr EFuelC.
+  r <> RErr EFuelC /\
+  (forall f, In (f, RErr ESecurity) (c_records (s_c s')) ->
+             In (f, RErr ESecurity) (c_records (s_c s)) \/ has_sec s s').
 Proof.
   intros HI Hfile H. unfold record_do in H.
   minva H c0 s0 E0. unfold get_client in E0. inversion E0; subst c0 s0; clear E0.
@@ -758,7 +766,8 @@ Proof.
     split; [exact HI|]. split; [constructor; reflexivity|]. split; [apply textend_refl|].
     split; [intros d ->; eapply (ci_records _ HI); eauto|].
     split; [intros ->; right; exact Hfind|].
-    intros ->. eapply (ci_nofuel _ HI); eauto.
+    split; [intros ->; eapply (ci_nofuel _ HI); eauto|].
+    intros f Hin. left. exact Hin.
   - minva H r1 s1 E1. apply record_work_spec in E1 as (HI1 & F1 & T1 & Hok & Hsec & Hnf); auto.
     minva H c2 s2 E2. unfold get_client in E2. inversion E2; subst c2 s2; clear E2.
     minva H u s3 E3. unfold set_client in E3. inversion E3; subst s3; clear E3.
@@ -769,8 +778,18 @@ Proof.
       - intros f [[= <- ->]|Hin]; [apply Hnf; reflexivity | eapply ci_nofuel0; eauto]. }
     split; [constructor; cbn; apply F1|].
     split; [destruct T1 as (evs & ? & ?); exists evs; cbn; auto|].
-    split; [exact Hok|]. split; [|exact Hnf].
-    intros Hr. left. destruct (Hsec Hr) as (evs & ? & ?). exists evs; cbn; auto.
+    split; [exact Hok|].
+    assert (Hsec' : r1 = RErr ESecurity ->
+              has_sec s {| s_w := s_w s1; s_c := {| c_init := c_init (s_c s1); c_name := c_name (s_c s1);
+                 c_verifiers := c_verifiers (s_c s1); c_latest := c_latest (s_c s1);
+                 c_latest_msg := c_latest_msg (s_c s1); c_records := (file, r1) :: c_records (s_c s1);
+                 c_tiles := c_tiles (s_c s1); c_tile_saved := c_tile_saved (s_c s1);
+                 c_height := c_height (s_c s1) |}; s_tr := s_tr s1 |}).
+    { intros Hr. destruct (Hsec Hr) as (evs & ? & ?). exists evs; cbn; auto. }
+    split; [intros Hr; left; auto|]. split; [exact Hnf|].
+    intros f [[= <- Hr]|Hin].
+    + right. apply Hsec'. exact Hr.
+    + left. rewrite <- (mf_records _ _ F1). exact Hin.
 Qed.
 
 Definition key_ok (w : world) : Prop :=
@@ -850,6 +869,10 @@ Proof.
   intros Hs. eapply has_sec_l; [exact T4' | apply Hsec5; exact Hs].
 Qed.
 
+(* a security error is memoised in the client *)
+Definition sec_memo (c : client) : Prop :=
+  c_init c = Some (Some ESecurity) \/ exists f, In (f, RErr ESecurity) (c_records c).
+
 (* the invariant of a client between lookups *)
 Definition ClientInv (c : client) : Prop :=
   match c_init c with
@@ -869,12 +892,13 @@ Lemma lookup_m_spec path vers s r s' :
   (r = LErr ESecurity ->
      has_sec s s' \/ c_init (s_c s) = Some (Some ESecurity) \/
      exists f, In (f, RErr ESecurity) (c_records (s_c s))) /\
-  r <> LErr EFuelC.
+  r <> LErr EFuelC /\
+  (sec_memo (s_c s') -> sec_memo (s_c s) \/ has_sec s s').
 Proof.
   intros HC Hkey H. unfold lookup_m in H.
   destruct (skip path).
   { apply ret_inv in H as [-> ->]. split; [exact HC|]. split; [apply textend_refl|]. split; [split; reflexivity|].
-    split; [discriminate|]. split; discriminate. }
+    split; [discriminate|]. split; [discriminate|]. split; [discriminate | auto]. }
   minva H e0 s1 E1.
   (* initialisation *)
   assert (Hinit : ClientInv (s_c s1) /\ textend ev_safe s s1 /\
@@ -883,6 +907,7 @@ Proof.
                   c_init (s_c s1) = Some e0 /\
                   (e0 = Some ESecurity -> has_sec s s1 \/ c_init (s_c s) = Some (Some ESecurity)) /\
                   c_records (s_c s1) = c_records (s_c s)).
+  (* (a memoised security error of s1 is one of s or was reported during initialisation) *)
   { unfold client_init in E1. minva E1 c0 sa Ea. unfold get_client in Ea. inversion Ea; subst c0 sa; clear Ea.
     unfold ClientInv in HC. destruct (c_init (s_c s)) as [r0|] eqn:Hci.
     - apply ret_inv in E1 as [-> ->]. unfold ClientInv. rewrite Hci.
@@ -901,9 +926,13 @@ Proof.
       split; [|exact Hrec].
       intros ->. left. destruct (Hsec eq_refl) as (evs & ? & ?). exists evs; cbn; auto. }
   destruct Hinit as (HC1 & T1 & Hrm1 & Hci1 & Hsec1 & Hsame1).
+  assert (Hmemo1 : sec_memo (s_c s1) -> sec_memo (s_c s) \/ has_sec s s1).
+  { intros [Hi|(f & Hin)].
+    - rewrite Hci1 in Hi. injection Hi as ->. destruct (Hsec1 eq_refl) as [Hs|Hm]; [right; exact Hs | left; left; exact Hm].
+    - left. right. exists f. rewrite <- Hsame1. exact Hin. }
   destruct e0 as [err|].
   { apply ret_inv in H as [-> ->]. split; [exact HC1|]. split; [exact T1|]. split; [exact Hrm1|].
-    split; [discriminate|]. split.
+    split; [discriminate|]. split; [|split; [|exact Hmemo1]].
     - intros [= ->]. destruct (Hsec1 eq_refl); auto.
     - intros [= ->]. unfold ClientInv in HC1. rewrite Hci1 in HC1. apply HC1. reflexivity. }
   assert (HI1 : CInv (s_c s1)) by (unfold ClientInv in HC1; rewrite Hci1 in HC1; exact HC1).
@@ -913,16 +942,17 @@ Proof.
      assoc (B "key") (w_config (s_w s')) = assoc (B "key") (w_config (s_w s))) /\
     (forall lines, r = LOk lines -> CInv (s_c s') /\ exists d, auth_record d /\ lines = result_lines path vers d) /\
     (r = LErr ESecurity -> has_sec s s' \/ c_init (s_c s) = Some (Some ESecurity) \/
-       exists f, In (f, RErr ESecurity) (c_records (s_c s))) /\ r <> LErr EFuelC).
+       exists f, In (f, RErr ESecurity) (c_records (s_c s))) /\ r <> LErr EFuelC /\
+    (sec_memo (s_c s') -> sec_memo (s_c s) \/ has_sec s s')).
   { intros e H1 H2 [= <- <-]. split; [exact HC1|]. split; [exact T1|]. split; [exact Hrm1|].
-    split; [discriminate|]. split; congruence. }
+    split; [discriminate|]. split; [congruence|]. split; [congruence | exact Hmemo1]. }
   destruct (esc_path path) as [epath|].
   2: { apply ret_inv in H as [-> ->]. eapply Hstop; [| |reflexivity]; discriminate. }
   destruct (esc_vers (trim_suffix vers go_mod_suffix)) as [evers|].
   2: { apply ret_inv in H as [-> ->]. eapply Hstop; [| |reflexivity]; discriminate. }
   minva H c1 s2 E2. unfold get_client in E2. inversion E2; subst c1 s2; clear E2.
   minva H rr s3 E3.
-  apply record_do_spec in E3 as (HI3 & F3 & T3 & Hok & Hsec3 & Hnf3); auto.
+  apply record_do_spec in E3 as (HI3 & F3 & T3 & Hok & Hsec3 & Hnf3 & Hmemo3); auto.
   2: { exists epath, evers. rewrite (ci_name _ HI1). reflexivity. }
   assert (HC3 : ClientInv (s_c s3)).
   { unfold ClientInv. rewrite (lf_init _ _ F3), Hci1. exact HI3. }
@@ -930,12 +960,18 @@ Proof.
   assert (Hrm3 : w_remote (s_w s3) = w_remote (s_w s) /\
                  assoc (B "key") (w_config (s_w s3)) = assoc (B "key") (w_config (s_w s))).
   { destruct Hrm1 as [Ha Hb]. split; [rewrite (lf_remote _ _ F3); exact Ha | rewrite (lf_key _ _ F3); exact Hb]. }
+  assert (Hmemo13 : sec_memo (s_c s3) -> sec_memo (s_c s) \/ has_sec s s3).
+  { intros [Hi|(f & Hin)].
+    - rewrite (lf_init _ _ F3), Hci1 in Hi. discriminate.
+    - destruct (Hmemo3 _ Hin) as [Hold|Hs].
+      + left. right. exists f. rewrite <- Hsame1. exact Hold.
+      + right. eapply has_sec_l; [exact T1 | exact Hs]. }
   destruct rr as [data|err]; apply ret_inv in H as [-> ->].
   - split; [exact HC3|]. split; [exact T13|]. split; [exact Hrm3|].
-    split; [|split; discriminate].
+    split; [|split; [discriminate|]; split; [discriminate | exact Hmemo13]].
     intros lines [= <-]. split; [exact HI3|]. exists data. split; [apply Hok; reflexivity | reflexivity].
   - split; [exact HC3|]. split; [exact T13|]. split; [exact Hrm3|].
-    split; [discriminate|]. split.
+    split; [discriminate|]. split; [|split; [|exact Hmemo13]].
     + intros [= ->]. destruct (Hsec3 eq_refl) as [Hs|Hin].
       * left. eapply has_sec_l; [exact T1 | exact Hs].
       * right. right. rewrite Hsame1 in Hin. eauto.
